@@ -257,7 +257,9 @@ class ForwardScheduler(IScheduler):
         max_predecessor_ends = self.__start
         for t in [_task] + [p for p in _task.all_parents]:
             for pred in t.predecessors:
-                self.__forward_pass(pred, resource_usage, calculated)
+                # tasks of other projects are taken as they are: only their end date counts
+                if pred.wbs is _task.wbs:
+                    self.__forward_pass(pred, resource_usage, calculated)
             max_predecessor_ends = max([p.end for p in t.predecessors if p.end is not None] + [max_predecessor_ends])
 
         for ch in _task.children:
@@ -437,7 +439,9 @@ class BackwardScheduler(IScheduler):
         min_successor_starts = self.__end
         for t in [_task] + [p for p in _task.all_parents]:
             for succ in t.successors:
-                self.__backward_pass(succ, resource_usage, calculated)
+                # tasks of other projects are taken as they are: only their start date counts
+                if succ.wbs is _task.wbs:
+                    self.__backward_pass(succ, resource_usage, calculated)
             min_successor_starts = min([s.start for s in t.successors if s.start is not None] + [min_successor_starts])
 
         for ch in reversed(_task.children):
